@@ -6,6 +6,7 @@ import LasModel.Driver.HdrD
 import LasModel.Driver.SpecD
 import LasModel.Driver.FileD
 import LasModel.Driver.ReaderD
+import LasModel.Driver.ScalD
 namespace LasModel.Driver
 
 def dispatch (line : String) : String :=
@@ -17,6 +18,7 @@ def dispatch (line : String) : String :=
   | "spec" :: rest => (SpecD.handle rest).getD "bad-op"
   | "file" :: rest => (FileD.handle rest).getD "bad-op"
   | "rd" :: rest => (ReaderD.handle rest).getD "bad-op"
+  | "sc" :: rest => (ScalD.handle rest).getD "bad-op"
   | _ => "bad-op"
 
 partial def loop (h : IO.FS.Stream) (out : IO.FS.Stream) : IO Unit := do
